@@ -124,7 +124,7 @@ contract("artap.archive:Archive.truncate", props=["C04", "C18"],
              "implies(old(arch_inv(self)), arch_inv(self))",
              "unchanged(old(self._contents))",
          ],
-         modifies=["self._contents"], allocates=True)
+         modifies=["self._contents"], allocates=["$list.Ref", "$len.Ref"])
 
 # ---- clients of add ------------------------------------------------------------------------------------------
 _ADD_REQ = ["arch_inv(self)", "arch_wf(self, individual)", "len(individual.costs_signed) >= 2"]
